@@ -1,6 +1,7 @@
 (* C02: each message unit runs exactly the first command matching its effective header (on the fixed parser model) *)
 From Coq Require Import Bool List NArith ZArith Lia.
 From M Require LexModel MatchModel FmtModel.
+From M Require OpsGen.
 From M Require Import ParserModel Framing2.
 Import ListNotations.
 Local Open Scope Z_scope.
@@ -120,6 +121,23 @@ Proof.
   - destruct (cur c) as [[[pat tg] sc]|]; [|apply K_refl]. destruct (MatchModel.matchCommand _ _ _ _) as [r [a|]]; cbn [fst]; now apply K_ev.
   - destruct (syst_err_parts c) as [[code info] q']. cbn [fst]. eapply K_trans; [|apply K_result_error]. eapply K_trans; [|apply K_emit_empty]. kr.
   - apply K_refl.
+  - apply K_result_int.
+  - apply K_result_int.
+  - apply K_result_int.
+  - apply K_result_int.
+  - apply K_item.
+  - apply K_item.
+  - apply K_item.
+  - destruct (cur c) as [[[pat tg] sc]|]; [|now apply K_ev]. destruct (MatchModel.matchCommand _ _ _ _) as [r a]; cbn [fst]; now apply K_ev.
+  - apply (OpsGen.R_result_array K K_refl K_trans K_result_int K_result_hdr K_result_data).
+  - pose proof (OpsGen.R_param_array K K_refl K_trans K_param_int K_param_fp ty (Z.to_nat cap) c m []) as H.
+    destruct (param_array _ _ c m []) as [[c1 m1] vals]; cbn [fst] in *. eapply K_trans; [exact H|now apply K_ev].
+  - pose proof (K_parameter c m) as H. destruct (parameter c m) as [[c1 ok] t]; cbn [fst] in *. destruct ok; [|eapply K_trans; [exact H|now apply K_ev]].
+    pose proof (OpsGen.R_expr_numlist K K_refl (fun c => K_error_push c (-170) None) (fun c => K_error_push c (-104) None) c1 t idx) as H2.
+    destruct (expr_numlist c1 t idx) as [c2 rep]; cbn [fst] in *. eapply K_trans; [exact H|]. eapply K_trans; [exact H2|now apply K_ev].
+  - pose proof (K_parameter c m) as H. destruct (parameter c m) as [[c1 ok] t]; cbn [fst] in *. destruct ok; [|eapply K_trans; [exact H|now apply K_ev]].
+    pose proof (OpsGen.R_expr_chanlist K K_refl (fun c => K_error_push c (-170) None) (fun c => K_error_push c (-104) None) c1 t idx cap) as H2.
+    destruct (expr_chanlist c1 t idx cap) as [c2 rep]; cbn [fst] in *. eapply K_trans; [exact H|]. eapply K_trans; [exact H2|now apply K_ev].
 Qed.
 Lemma K_run_script s : forall c d, K c (fst (run_script s c d)).
 Proof.
